@@ -38,6 +38,46 @@ type Query { t(i: In = {a: 1}, n: Int = null): T u: U i: I secret: String @nonIn
 """
 
 
+EXT_HEAD = """
+directive @mark on OBJECT | INTERFACE | UNION | ENUM | INPUT_OBJECT | SCALAR | SCHEMA
+interface Node { id: ID }
+type Item implements Node { id: ID }
+type Other { n: Int }
+union Thing = Item
+enum Color { RED }
+input Filter { color: Color }
+scalar Money
+type Query { node: Node money: Money thing(f: Filter): Thing }
+"""
+EXT_MEMBERS = """
+extend type Query { items: [Item] }
+extend enum Color { GREEN }
+extend input Filter { limit: Int = 1 }
+extend union Thing = Other
+extend type Other implements Node { id: ID }
+extend interface Node { name: String }
+extend type Item { name: String }
+extend type Other { name: String }
+"""
+EXTENSION_LAYOUTS = [
+    ("members-only", EXT_HEAD + EXT_MEMBERS),
+    ("directive-only-interface-first", EXT_HEAD + "extend interface Node @mark\n" + EXT_MEMBERS),
+    ("directive-only-object-first", EXT_HEAD + "extend type Item @mark\n" + EXT_MEMBERS),
+    ("directive-only-union-first", EXT_HEAD + "extend union Thing @mark\n" + EXT_MEMBERS),
+    ("directive-only-enum-first", EXT_HEAD + "extend enum Color @mark\n" + EXT_MEMBERS),
+    ("directive-only-input-first", EXT_HEAD + "extend input Filter @mark\n" + EXT_MEMBERS),
+    ("directive-only-scalar-first", EXT_HEAD + "extend scalar Money @mark\n" + EXT_MEMBERS),
+    ("directive-only-schema-first", EXT_HEAD + "schema { query: Query }\nextend schema @mark\n" + EXT_MEMBERS),
+    ("schema-extension-adds-root", EXT_HEAD + "type Mut { go: Int }\nschema { query: Query }\nextend schema { mutation: Mut }\n" + EXT_MEMBERS),
+    ("extensions-before-definitions", EXT_MEMBERS + EXT_HEAD),
+    ("empty-union-base", EXT_HEAD.replace("union Thing = Item", "union Thing") + "extend union Thing = Item\n" + EXT_MEMBERS),
+    ("empty-enum-base", EXT_HEAD.replace("enum Color { RED }", "enum Color") + "extend enum Color { RED }\n" + EXT_MEMBERS),
+    ("empty-input-base", EXT_HEAD.replace("input Filter { color: Color }", "input Filter") + "extend input Filter { color: Color }\n" + EXT_MEMBERS),
+    ("empty-object-base", EXT_HEAD.replace("type Other { n: Int }", "type Other") + "extend type Other { n: Int }\n" + EXT_MEMBERS),
+    ("empty-interface-base", EXT_HEAD.replace("interface Node { id: ID }", "interface Node") + "extend interface Node { id: ID }\n" + EXT_MEMBERS),
+]
+
+
 def seed_models():
     w, _ = seeds.w_schema("quick")
     return [("K", seeds.K), ("W", w), ("mini", S.parse_sdl(MINI_SDL)), ("renamed", S.parse_sdl(RENAMED_SDL)),
@@ -87,6 +127,8 @@ def shards(tier, seed):
         for k in range(n):
             items.append((si, k, n, tier))
     items.append(("nonintrospectable", tier))
+    for i in range(len(EXTENSION_LAYOUTS)):
+        items.append(("extension-layout", i, tier))
     return items
 
 
@@ -214,6 +256,9 @@ def run_shard(item):
         if item[0] == "nonintrospectable":
             _nonintrospectable(out)
             return out
+        if item[0] == "extension-layout":
+            _extension_layout(item[1], out)
+            return out
         si, k, n, tier = item
         label, schema = seed_models()[si]
         for model, trail in models(schema, DEPTH[tier], k, n):
@@ -235,6 +280,61 @@ def run_shard(item):
     except doc.MachineryError as e:
         out["machinery"].append(str(e)[:600])
     return out
+
+
+def _extension_layout(i, out):
+    """hand-written SDL texts using every extension form; the expectation comes from the folded model"""
+    label, sdl = EXTENSION_LAYOUTS[i]
+    schema = S.parse_sdl(sdl)
+    bad = SV.violations(schema)
+    if bad:
+        out["machinery"].append("extension layout %s is not a valid schema: %s" % (label, sorted(bad)))
+        return
+    exp_all = I.expected(schema, True)
+    out["counts"]["models"] += 1
+    out["counts"]["nontrivial"] += 1
+    for way in WAYS:
+        tmp = tempfile.mkdtemp(prefix="vf-c11-")
+        name = harness.fresh_name("c11x")
+        try:
+            if way == "string":
+                supplied = sdl
+            elif way == "file":
+                supplied = os.path.join(tmp, "s.sdl")
+                open(supplied, "w").write(sdl)
+            else:
+                # keep the order of definitions: one file per chunk, numbered so that glob / list order is the text order
+                defs = [d for d in sdl.strip().split("\n") if d.strip()]
+                chunks = [defs[: len(defs) // 2], defs[len(defs) // 2:]]
+                if way == "files":
+                    supplied = []
+                    for k, ch in enumerate(chunks):
+                        fp = os.path.join(tmp, "p%d.graphql" % k)
+                        open(fp, "w").write("\n".join(ch) + "\n")
+                        supplied.append(fp)
+                else:
+                    supplied = os.path.join(tmp, "tree")
+                    os.makedirs(os.path.join(supplied, "sub"))
+                    open(os.path.join(supplied, "a.sdl"), "w").write("\n".join(chunks[0]) + "\n")
+                    open(os.path.join(supplied, "sub", "b.sdl"), "w").write("\n".join(chunks[1]) + "\n")
+            try:
+                engine = harness.build_engine(schema, sdl=supplied, resolvers=set(), name=name)
+            except Exception as e:  # noqa
+                out["violations"].append(_v("engine-not-built|%s" % label, "build", (), "extension layout %s [%s]: %r\n%s" % (label, way, e, sdl), schema, way, True))
+                continue
+            out["counts"]["engines"] += 1
+            r = harness.execute(engine, I.schema_query(True), Scenario(root={}))
+            out["counts"]["evaluations"] += 1
+            if r.get("errors") or not r.get("data"):
+                out["violations"].append(_v("schema|introspection-query-failed|%s" % label, "introspection", (), "%s [%s]: %r" % (label, way, r.get("errors")), schema, way, True))
+                continue
+            for el, attr, det in I.compare(exp_all, I.normalise(r["data"]))[:4]:
+                out["violations"].append(_v("%s|%s|%s" % (el, _attr_sig(attr), label), "introspection", (),
+                                            "extension layout %s [%s]: %s %s: %r\n%s" % (label, way, el, attr, det, sdl), schema, way, True))
+        finally:
+            shutil.rmtree(tmp, ignore_errors=True)
+            SchemaRegistry._schemas.pop(name, None)
+    out["samples"].append({"extension_layout": label, "sdl": sdl})
 
 
 def _nonintrospectable(out):
